@@ -13,6 +13,8 @@ pub fn run(rep: &Report) -> bool {
         "C05" => props::c05::run(rep),
         "C06" => props::c06::run(rep),
         "C07" => props::c07::run(rep),
+        "C08" => props::c08::run(rep),
+        "C09" => props::c09::run(rep),
         "C10" => props::c10::run(rep),
         "C11" => props::c11::run(rep),
         "C12" => props::c12::run(rep),
@@ -67,6 +69,8 @@ pub fn replay(rep: &Report, path: &str) -> i32 {
         "C05" => props::c05::replay(rep, &stage, &j),
         "C06" => props::c06::replay(rep, &stage, &j),
         "C07" => props::c07::replay(rep, &stage, &j),
+        "C08" => props::c08::replay(rep, &stage, &j),
+        "C09" => props::c09::replay(rep, &stage, &j),
         "C10" => props::c10::replay(rep, &stage, &j),
         "C11" => props::c11::replay(rep, &stage, &j),
         "C12" => props::c12::replay(rep, &stage, &j),
@@ -92,6 +96,8 @@ pub fn child_dispatch(kind: &str, payload: &J) -> Option<J> {
     let prop = kind.split('-').next().unwrap_or("");
     match prop {
         "c05" => props::c05::child(kind, payload),
+        "c08" => props::c08::child(kind, payload),
+        "c09" => props::c09::child(kind, payload),
         "c16" => props::c16::child(kind, payload),
         "c17" => props::c17::child(kind, payload),
         "c19" => props::c19::child(kind, payload),
